@@ -48,6 +48,14 @@ def corpus(rng, n):
         h = ".".join(parts) + rng.choice(["", "", ".", ".."])
         lines.append(f"seqagg - {hx('http://' + h + '/')} !")
         lines.append(f"sequrl - {hx('http://x/')} ! set_host {hx(h)}")
+    for _ in range(n // 6):
+        # the longest texts the decimal kernels accept (15 bytes, 16 with the trailing dot) and their neighbours
+        q = ".".join(str(rng.choice([100, 199, 200, 249, 250, 255, 256, rng.randrange(100, 256), rng.randrange(0, 100)])) for _ in range(4))
+        h = q + rng.choice(["", ".", ".", ".."])
+        T = rng.choice(["seqagg", "sequrl"])
+        lines.append(f"{T} - {hx(rng.choice(['http://', 'ws://u:p@', 'https://']) + h + rng.choice(['/', ':8080/x', '']))} !")
+        lines.append(f"{T} - {hx('https://user:pw@example.com:8080/x')} ! {rng.choice(['set_host', 'set_hostname'])} {hx(h)}")
+        lines.append(f"cancheck - {hx('http://' + h + '/')} !")
     for _ in range(n // 4):
         h = genlib.gen_ipv6(rng)
         lines.append(f"seqagg - {hx(b'http://' + h + b'/')} !")
